@@ -88,6 +88,9 @@ pub enum Fault {
     SwapDisclosures(usize, usize),
     ReverseDisclosures,
     RotateDisclosures(usize),
+    /// explicit permutation: new list = [old[p[0]], old[p[1]], ...] (indices modulo the length;
+    /// applied only if it really is a permutation of 0..n)
+    Permute(Vec<usize>),
     /// keep exactly the disclosures whose bit is set (subset enumeration)
     KeepMask(u64),
     CorruptChar { part: Part, pos: usize, op: CharOp },
@@ -119,7 +122,7 @@ impl Fault {
         match self {
             Fault::DropDisclosure(_) => "drop_disclosure",
             Fault::DupDisclosure { .. } => "dup_disclosure",
-            Fault::SwapDisclosures(..) | Fault::ReverseDisclosures | Fault::RotateDisclosures(_) => "reorder_disclosures",
+            Fault::SwapDisclosures(..) | Fault::ReverseDisclosures | Fault::RotateDisclosures(_) | Fault::Permute(_) => "reorder_disclosures",
             Fault::KeepMask(_) => "subset_disclosures",
             Fault::CorruptChar { .. } => "corrupt_char",
             Fault::Truncate { .. } => "truncate_part",
@@ -437,6 +440,14 @@ pub fn apply(f: &Fault, m: &mut Message, tokens: &[Message], w: &mut World, now:
             }
         }
         Fault::ReverseDisclosures => m.disclosures.reverse(),
+        Fault::Permute(p) => {
+            let n = m.disclosures.len();
+            let mut seen = vec![false; n];
+            let ok = p.len() == n && p.iter().all(|i| *i < n && !std::mem::replace(&mut seen[*i], true));
+            if ok {
+                m.disclosures = p.iter().map(|i| m.disclosures[*i].clone()).collect();
+            }
+        }
         Fault::RotateDisclosures(k) => {
             if !m.disclosures.is_empty() {
                 let k = k % m.disclosures.len();
